@@ -6,7 +6,7 @@
 //! history that led to it. Nothing here is used by the library itself.
 
 use super::{DecodeState, Decoder, NonOwningDecoder};
-use crate::util::Buffer;
+use crate::util::{Buffer, CRC_X25};
 
 /// Plain copy of every field of a [`Decoder`].
 #[derive(Debug, Clone, PartialEq, Eq, Hash)]
@@ -86,6 +86,42 @@ impl<B: Buffer> Decoder<B> {
                 crc: d.crc.clone(),
                 state,
                 zero_cache: d.zero_cache,
+            },
+        })
+    }
+
+    /// Constructs a decoder that is in exactly the state described by `snap`.
+    ///
+    /// Returns `None` if the snapshot's buffer contents do not fit this buffer type or
+    /// the snapshot is not well-formed.
+    pub fn verif_restore(snap: &DecoderSnapshot) -> Option<Self> {
+        let mut buf = B::default();
+        buf.extend_from_slice(&snap.buf).ok()?;
+        let state = match snap.tag {
+            0 => DecodeState::LookingForMessageStart {
+                num_discarded_bytes: snap.num_discarded_bytes.try_into().ok()?,
+                num_init_seq_bytes: snap.n,
+            },
+            1 => DecodeState::ParsingNormal,
+            2 => DecodeState::ParsingEscChars(snap.n),
+            3 => DecodeState::ParsingEscPayload {
+                step: snap.n,
+                payload: snap.payload,
+            },
+            4 => DecodeState::Done,
+            _ => return None,
+        };
+        // CRC-16/X.25 is reflected on input and output: the register is the finalised value
+        // with the final xor undone, and `digest_with_initial` reflects its argument once.
+        let register = snap.crc ^ 0xffff;
+        let crc = CRC_X25.digest_with_initial(register.reverse_bits());
+        Some(Decoder {
+            buf,
+            decoder: NonOwningDecoder {
+                raw_msg_len: snap.raw_msg_len,
+                crc,
+                state,
+                zero_cache: snap.zero_cache,
             },
         })
     }
